@@ -279,15 +279,19 @@ func genBad(r *rand.Rand, c *caseCtx) Step {
 			s.Body = b
 		}
 		s.HasRecs, s.Recs, s.Mut = false, nil, "bitflip"
-	case 2: // over-long line (D7)
-		long := bytes.Repeat([]byte("x"), 65536+lib.Range(r, 0, 40))
-		long = append(long, " 7\n"...)
-		if lib.Chance(r, 0.5) {
-			s.Body = append(append([]byte{}, s.Body...), long...)
-		} else {
-			s.Body = append(long, s.Body...)
+	case 2: // over-long line (D7): still rendered from records, one of which has a stack of more than 64 KiB
+		if binary || f == "lines" {
+			s.Format, s.CType = nil, ""
+			s.Recs = randRecs(r, "groups")
 		}
-		s.HasRecs, s.Recs, s.Mut = false, nil, "longline"
+		long := Rec{K: strings.Repeat("x", 65536+lib.Range(r, 0, 40)), V: 7}
+		p := r.Intn(len(s.Recs) + 1)
+		recs := append([]Rec{}, s.Recs[:p]...)
+		recs = append(recs, long)
+		recs = append(recs, s.Recs[p:]...)
+		s.Recs, s.HasRecs = recs, true
+		s.Body = renderBody("groups", recs)
+		s.Mut = "longline"
 	case 3: // negative / unparsable counts
 		s.Body = append(append([]byte{}, s.Body...), lib.Pick(r, []string{"a;b -5\n", "a;b x\n", "a;b 1e3\n", "a;b 99999999999999999999\n", "a;b \n", "a;b 5 \n", " 5\n", "nospace\n"})...)
 		s.HasRecs, s.Recs, s.Mut = false, nil, "badcount"
@@ -683,7 +687,7 @@ func run(in Input) lib.Result {
 		if s.HasRecs {
 			items := make([]string, len(s.Recs))
 			for j, rc := range s.Recs {
-				items[j] = lib.Pair(lib.Bytes([]byte(rc.K)), lib.N(rc.V))
+				items[j] = lib.Pair(coqBody([]byte(rc.K)), lib.N(rc.V))
 			}
 			recs = lib.Some(lib.List(items))
 		}
@@ -720,8 +724,10 @@ func run(in Input) lib.Result {
 	}
 	coq := "{| c_watches := " + lib.List(wl) + "; c_steps := " + lib.List(steps) + " |}"
 	feat := map[string]interface{}{"steps": len(in.Steps)}
-	for i, m := range muts {
-		feat[fmt.Sprintf("step%d", i)] = m
+	for _, m := range muts {
+		if k := strings.Index(m, "->"); k > 0 {
+			feat["req:"+m[:k]] = m[k+2:]
+		}
 	}
 	hist := map[string]int{}
 	for _, st := range statuses {
